@@ -22,4 +22,7 @@ for name in sorted(os.listdir(base)):
     json.dump(m,open(mp,'w'),indent=1)
     open(os.path.join(d,'check_output.txt'),'w').write(p.stdout[-4000:])
     rows.append((name,pid,'detected' if p.returncode==1 else 'MISSED'))
+# evidence must describe the unchanged tree: re-run the touched properties' checks on it
+for pid in sorted(set(r[1] for r in rows)):
+    subprocess.run(['./check',pid,'quick'],cwd='/verif',capture_output=True,text=True)
 for r in rows: print(*r)
